@@ -1,2 +1,10 @@
 import BklProofs.C15
-#print axioms Bkl.C15_placeholder
+#print axioms Bkl.C15_roundtrip_core
+#print axioms Bkl.C15_replaceParent_iff
+#print axioms Bkl.C15_roundtrip_wf_base
+#print axioms Bkl.C15_roundtrip
+#print axioms Bkl.C15_roundtrip_parser
+#print axioms Bkl.C15_doc_never_replaceParent
+#print axioms Bkl.C15_empty_when_equal
+#print axioms Bkl.C15_same_iff
+#print axioms Bkl.C15_delete_entry_accepted
